@@ -53,3 +53,14 @@ Example C17_example_root :
   Some [35;204;255;199;118;126;27;154;84;179;225;140;152;111;0;208;52;88;37;188;171;33;234;229;
         254;146;200;73;214;207;237;180]%N.
 Proof. vm_compute. reflexivity. Qed.
+
+(* a whole baked RANGE that reaches outside the list is refused, whatever its (board-supplied)
+   width - the expansion stops at the first position outside; the model's loop takes at most
+   |list| + 1 steps, never a number of steps that depends on the width *)
+Require Import Ssz.TasksProofs.
+Theorem C17_range_outside_refused :
+  forall t, tk_payload t = None -> tk_start t < tk_end t ->
+  (tk_start t < 0 \/ 18632 < tk_end t) ->
+  forall rest, exists err, tasks_to_messages (t :: rest) = BErr err.
+Proof. exact range_outside_refused. Qed.
+Print Assumptions C17_range_outside_refused.
